@@ -19,7 +19,8 @@ for s in ids:
 def lane(p):
     for s in lanes[p]:
         d = "seeded/" + s; ov = "/tmp/sweep/" + s
-        r = subprocess.run(["tools/overlay.sh", d + "/patch.diff", ov], capture_output=True, text=True)
+        pf = d + "/patch.current.diff" if os.path.exists(d + "/patch.current.diff") else d + "/patch.diff"  # refreshed against the current source
+        r = subprocess.run(["tools/overlay.sh", pf, ov], capture_output=True, text=True)
         if r.returncode != 0 or not os.path.exists(ov + "/overlay.json"):
             open(d + "/result.txt", "w").write("seed %s: overlay failed\n%s\n" % (s, r.stderr[-500:])); print(s, "overlay failed", flush=True); continue
         env = dict(os.environ, VERIF_GO_OVERLAY=ov + "/overlay.json")
